@@ -175,7 +175,9 @@ def r182(ctx):
                 names = [render(strip_ref(iv.expr(o))) for o in r["stmt"].rv.ops]
                 ctx.ob("R18.2", names == order, f"{ib.name}/tuple-order", f"{impl}::channel_keys returns {names} (documented order {order})",
                        where=f"{ib.file}:{r['line']}", sample=names)
-    # stub re-derivation
+    # stub re-derivation (if the helper was inlined or removed, R18.3 decides where setup takes its keys from)
+    if not p.has_fn(f"{STUB}::channel_keys_with_channel_value"):
+        return
     sb = p.fn(f"{STUB}::channel_keys_with_channel_value")
     sv = fnview(ctx, sb, policy=False)
     for bi, c in sb.calls():
@@ -244,8 +246,12 @@ def r183(ctx):
         if bb is sb:
             vals = dict(zip(s.rv.a[3], s.rv.ops))
             e = sv.expr(vals["keys"])
-            ctx.ob("R18.3", R.mentions_call(e, "channel_keys_with_channel_value"), f"{sb.name}/keys-from-stub",
-                   f"setup_channel takes the channel's keys from `{render(e)[:100]}`", where=f"{sb.file}:{s.line}",
+            from_stub = R.mentions_call(e, "channel_keys_with_channel_value") or any(
+                x[0] == "field" and x[2].endswith("channel::ChannelStub") and x[3] == "keys" for x in subexprs(e))
+            rederived = R.mentions_call(e, "get_channel_keys_with_id") or R.mentions_call(e, "get_channel_keys_with_keys_id")
+            ctx.ob("R18.3", from_stub and not rederived, f"{sb.name}/keys-from-stub",
+                   f"setup_channel takes the ready channel's keys from `{render(e)[:160]}`, not from the stub's own keys: the keys "
+                   f"handed out before setup and the keys used after setup can differ", where=f"{sb.file}:{s.line}",
                    sample="keys <- stub.channel_keys_with_channel_value(value)")
             ctx.ob("R18.3", render(peel(sv.expr(vals["id0"]))) == "channel_id0", f"{sb.name}/id0", "setup changes id0", where=f"{sb.file}:{s.line}")
     R.who_may_call(ctx, "R18.3", lambda n: n == f"{MKM}::get_channel_keys_with_keys_id",
